@@ -256,6 +256,31 @@ Definition buff_tgt_ships (w : world) (s : nat) (f : nat) (fleet : option nat) :
 Definition q_to_z (q : Q) : option Z :=
   let r := Qred q in if Pos.eqb (Qden r) 1 then Some (Qnum r) else None.
 
+Definition proj_is_buff (w : world) (pr : proj) : bool :=
+  match get_src w (pj_src pr) with
+  | Some u => match get_effect u (pj_eff pr) with Some ef => e_buff ef | None => false end
+  | None => false
+  end.
+
+(* warfare-buff projectors among [projs] whose item's fit satisfies [sel],
+   grouped by that fit in first-seen order; None: projector item without fit *)
+Definition buff_groups (w : world) (c : calc) (projs : list proj) (sel : nat -> bool) : option (list (nat * list proj)) :=
+  fold_left (fun acc pr =>
+               match acc with
+               | None => None
+               | Some g =>
+                 if negb (ks_has proj_eqb (c_buffs c) pr) then Some g
+                 else match item_fit w (pj_item pr) with
+                      | None => None
+                      | Some pf =>
+                        if sel pf then
+                          Some (match al_get neqb g pf with
+                                | Some l => al_set neqb g pf (l ++ [pr])
+                                | None => al_set neqb g pf [pr] end)
+                        else Some g
+                      end
+               end) projs (Some []).
+
 Section Publish.
   (* everything below recurses through nested publication on explicit fuel *)
 
@@ -334,16 +359,65 @@ Section Publish.
                         per_fit w
             end
           end in
+      (* __revise_tgt_projections *)
+      let revise_tgt (w : world) (s : nat) (i : nat) (loaded : bool) : world :=
+          let (w, ch) :=
+              fold_left
+                (fun (acc : world * changes) pr =>
+                   let (w, ch) := acc in
+                   match gen_projected w (calc_of w s) (pj_item pr) [pj_eff pr] with
+                   | None => (fail w EKeyAbsent, ch)
+                   | Some specs =>
+                     fold_left
+                       (fun (acc : world * changes) sp =>
+                          let (w, ch) := acc in
+                          let w := if loaded
+                                   then with_calc w s (fun c => apply_targets c (projected_targets w c sp [Some i]) sp true)
+                                   else w in
+                          let (w, ch) := force_all w ch (projected_affectees w (calc_of w s) sp [Some i])
+                                                   (m_tgt_attr (sp_mod sp)) in
+                          let w := if loaded then w
+                                   else with_calc w s (fun c => apply_targets c (projected_targets w c sp [Some i]) sp false) in
+                          (w, ch)) specs (w, ch)
+                   end) (ks_get onat_eqb (c_tgtp (calc_of w s)) (Some i)) (w, []) in
+          publish_changes w ch in
       let handle (w : world) (s : nat) (m : msg) : world :=
           match m with
           | MItemLoaded i =>
             let w := with_calc w s (fun c => register_affectee w c i) in
-            match get_item w i with
-            | Some it => if cr_solsys (class_row_of (i_cls it))
-                         then with_calc w s (fun c => register_solsys_item w c i) else w
-            | None => w
-            end
+            let w := match get_item w i with
+                     | Some it => if cr_solsys (class_row_of (i_cls it))
+                                  then with_calc w s (fun c => register_solsys_item w c i) else w
+                     | None => w
+                     end in
+            let w := revise_tgt w s i true in
+            if is_ship w i then
+              let my_fleet := fit_fleet w f in
+              match buff_groups w (calc_of w s) (c_projectors (calc_of w s))
+                                (fun pf => Nat.eqb pf f
+                                           || (match my_fleet with
+                                               | Some fl => onat_eqb (fit_fleet w pf) (Some fl)
+                                               | None => false end)) with
+              | None => fail w ENoneDeref
+              | Some g =>
+                fold_left (fun w (p : nat * list proj) =>
+                             publish fuel w (fst p)
+                                     (map (fun pr => MEffectApplied (pj_item pr) (pj_eff pr) [Some i]) (snd p))) g w
+              end
+            else w
           | MItemUnloaded i =>
+            let w :=
+                if is_ship w i then
+                  match buff_groups w (calc_of w s) (ks_get onat_eqb (c_tgtp (calc_of w s)) (Some i)) (fun _ => true) with
+                  | None => fail w ENoneDeref
+                  | Some g =>
+                    fold_left (fun w (p : nat * list proj) =>
+                                 publish fuel w (fst p)
+                                         (map (fun pr => MEffectUnapplied (pj_item pr) (pj_eff pr) [Some i] false) (snd p)))
+                              g w
+                  end
+                else w in
+            let w := revise_tgt w s i false in
             let w := with_calc w s (fun c => unregister_affectee w c i) in
             match get_item w i with
             | Some it => if cr_solsys (class_row_of (i_cls it))
@@ -573,9 +647,7 @@ Section Publish.
                      match acc with
                      | None => None
                      | Some g =>
-                       let isb := match get_src w (pj_src pr) with
-                                  | Some u => match get_effect u (pj_eff pr) with Some ef => e_buff ef | None => false end
-                                  | None => false end in
+                       let isb := ks_has proj_eqb (c_buffs c0) pr in
                        if negb isb then Some g
                        else
                          match item_fit w (pj_item pr) with
@@ -591,7 +663,10 @@ Section Publish.
                                       match msg_fleet with
                                       | None => g
                                       | Some fl =>
-                                        fold_left (fun g of_ => if Nat.eqb of_ f then g else add g (pr, [fit_ship w of_]))
+                                        fold_left (fun g of_ => if Nat.eqb of_ f then g
+                                                                else match fit_ship w of_ with
+                                                                     | Some sh => add g (pr, [Some sh])
+                                                                     | None => g end)
                                                   (match al_get neqb (w_fleets w) fl with Some l => l | None => [] end) g
                                       end
                                     else g in
